@@ -40,6 +40,7 @@ type RunCfg struct {
 	LatMinUs int64   `json:"lat_min_us"`
 	LatMaxUs int64   `json:"lat_max_us"`
 	MaxSteps int     `json:"max_steps"`
+	FineMod  int     `json:"fine_mod,omitempty"`
 }
 
 func GenRunCfg(r *simrt.RNG) RunCfg {
@@ -61,6 +62,11 @@ func GenRunCfg(r *simrt.RNG) RunCfg {
 		c.LatMinUs, c.LatMaxUs = 50, 500
 	case 1:
 		c.LatMinUs, c.LatMaxUs = 1000, 40000
+	}
+	// one run in six schedules a random eighth (or quarter) of the library's
+	// functions statement by statement
+	if r.Intn(6) == 0 {
+		c.FineMod = []int{8, 8, 4}[r.Intn(3)]
 	}
 	return c
 }
@@ -87,7 +93,7 @@ type Env struct {
 
 func NewEnv(seed uint64, cfg RunCfg, follow []string, lenient bool) *Env {
 	sc := simrt.Config{Policy: cfg.Policy, PreemptP: cfg.PreemptP, PCTDepth: cfg.PCTDepth, TickP: cfg.TickP,
-		MaxSteps: cfg.MaxSteps, Follow: follow, Lenient: lenient}
+		MaxSteps: cfg.MaxSteps, Follow: follow, Lenient: lenient, FineMod: cfg.FineMod}
 	s := simrt.New(seed, sc)
 	n := simnet.New(s, simnet.Cfg{ChunkMax: cfg.ChunkMax, ParkWrites: true,
 		LatMin: time.Duration(cfg.LatMinUs) * time.Microsecond, LatMax: time.Duration(cfg.LatMaxUs) * time.Microsecond})
